@@ -9,7 +9,9 @@ radicle::node stores it calls) must be listed in the review table below with a
 reason.  Sources guarded by a caller-side check have that check verified (so that
 deleting the check is reported).  Arithmetic-overflow assertions are excluded
 (release builds disable them).  Sources reachable but outside the reviewed scope
-operate on data already accepted into local storage and are counted, not decided."""
+operate on data already accepted into local storage and are counted, not decided. 
+Guards must compare the very operands passed on; unsigned subtraction is a source
+unless dominated by `a >= b`; `Session::fetching` is guarded by `is_connected()`."""
 import re
 
 from .. import cfg, rules, flow, panic
